@@ -16,6 +16,7 @@ type specCtx struct {
 	local  func(name string, st *State) (Val, bool) // resolves source-level local variables (loop invariants)
 	iter   *iterInfo                                // map iterator of the loop whose invariant is being evaluated (for seen(k))
 	header *State                                   // state at the loop header of the current iteration (iteration clauses)
+	henv   map[string]Val                           // values of the loop-carried variables at the header (iteration clauses)
 	fr     *Frame
 	cur    *State
 	old    *State
@@ -820,6 +821,16 @@ func (u *Unit) specCall(e *SExpr, ctx *specCtx) (Val, error) {
 		}
 		u.declItoa()
 		return Val{T: sx("itoa", x.T), Ty: tStrT}, nil
+	case "atoi", "atoiok":
+		x, err := arg(0)
+		if err != nil {
+			return Val{}, err
+		}
+		u.declItoa()
+		if e.Name == "atoi" {
+			return Val{T: sx("atoi", x.T), Ty: tIntT}, nil
+		}
+		return Val{T: sx("atoi_ok", x.T), Ty: tBoolT}, nil
 	case "lower":
 		x, err := arg(0)
 		if err != nil {
@@ -941,6 +952,16 @@ func (u *Unit) specCall(e *SExpr, ctx *specCtx) (Val, error) {
 		n := *ctx
 		n.cur = ctx.header
 		n.header = nil
+		if ctx.henv != nil {
+			env := map[string]Val{}
+			for k, v := range ctx.env {
+				env[k] = v
+			}
+			for k, v := range ctx.henv {
+				env[k] = v
+			}
+			n.env = env
+		}
 		return u.specVal(e.Args[0], &n)
 	case "seenin":
 		// seenin(n, k): k was already visited by the range-over-map loop with ordinal n (an enclosing loop)
